@@ -818,16 +818,25 @@ WILD_FIXED = [
 ]
 
 
+POSIX_CLASSES = [b"alnum", b"alpha", b"blank", b"cntrl", b"digit", b"graph", b"lower", b"print", b"punct", b"space", b"upper", b"xdigit"]
+# both sides of every range edge of every class (sane-ctype.h), and the first bytes with the high bit
+CLASS_EDGES = [0x01, 0x08, 0x09, 0x0a, 0x0b, 0x0c, 0x0d, 0x0e, 0x1f, 0x20, 0x21, 0x2f, 0x30, 0x39, 0x3a, 0x40, 0x41, 0x46, 0x47, 0x5a, 0x5b,
+               0x60, 0x61, 0x66, 0x67, 0x7a, 0x7b, 0x7e, 0x7f, 0x80, 0xff]
+CLASS_FIXED = [(b"[[:" + c + b":]]", bytes([b])) for c in POSIX_CLASSES for b in CLASS_EDGES] + \
+              [(b"[![:" + c + b":]]", bytes([b])) for c in POSIX_CLASSES for b in (0x20, 0x30, 0x41, 0x61, 0x7e)]
+
+
 class Wild(Suite):
     name = "dowild"
     go_cmd = "c49"
     coq_imports = "From GoGit Require Import Model.Gitignore Spec.GitIgnore."
-    quick_n = 400
+    quick_n = 860
     thorough_n = 8000
     coq_chunk = 150
 
     def gen(self, rng, n, tier):
         cases = [{"bucket": "fixed", "op": "dowild", "p": p.hex(), "t": t.hex(), "flags": 0} for p, t in WILD_FIXED]
+        cases += [{"bucket": "class-edge", "op": "dowild", "p": p.hex(), "t": t.hex(), "flags": 0} for p, t in CLASS_FIXED]
         if tier == "thorough":
             # small-scope exhaustion: every pattern of length <= 3 over the special bytes, every text of length <= 2
             from vf.gen import all_strings
@@ -926,7 +935,7 @@ class Wild(Suite):
 
     def extra(self, ctx, cases, impl, model):
         git = self.git_batch(ctx, cases)
-        sub = [c for c in cases if c["id"] in git][:250 if ctx.tier == "quick" else 3000]
+        sub = [c for c in cases if c["id"] in git][:700 if ctx.tier == "quick" else 3000]
         outs = ctx.coq_eval(self.coq_imports, ['c49_git_wild "%s" "%s"' % (c["p"], c["t"]) for c in sub])
         bad = 0
         for c, o in zip(sub, outs):
@@ -935,7 +944,7 @@ class Wild(Suite):
                 if bad <= 5:
                     ctx.notes.append("spec_mismatch match_basename vs git on %r %r: S=%s git=%s" % (bytes.fromhex(c["p"]), bytes.fromhex(c["t"]), o, git[c["id"]]))
         # theorem instances: pattern in the glob fragment => the implementation decides like the declarative gmatch
-        gsub = cases[:400 if ctx.tier == "quick" else 4000]
+        gsub = cases[:900 if ctx.tier == "quick" else 4000]
         gouts = ctx.coq_eval(self.coq_imports, ['c49_gmatch "%s" "%s"' % (c["p"], c["t"]) for c in gsub])
         gin = gbad = gcls = 0
         for c, o in zip(gsub, gouts):
